@@ -5,6 +5,7 @@ from __future__ import annotations
 import re
 
 from ..env import Handler, Probe
+from ..gen import RENDER_ARGS
 from ..model import Model
 
 _TAG = re.compile(r"(<[^>]*>)")
@@ -29,6 +30,7 @@ def run_real(template, tmpl: dict, plan: list, handler_cfg) -> dict:
         handler = Handler(handler_cfg.get("fail_with"))
     res = {"out": None, "raise": None}
     kw = {"P": probe}
+    kw.update(RENDER_ARGS)
     try:
         if handler is not None:
             template.on_error_handler = handler
